@@ -4,7 +4,7 @@ EXTRACT_V = "ExtractLink.v"
 MODEL_DEPS = ["Base/Bytes.v", "Base/GoSem.v", "Gen/FromGo.v", "DM/Value.v", "Codec/Cid.v", "Codec/Cbor.v", "Link/LinkSys.v"]
 DRIVER = "link_driver"
 HARNESS = "c06"
-COUNTS = {"quick": 60, "thorough": 400}
+COUNTS = {"quick": 120, "thorough": 400}
 DESIGN_REF = "DESIGN.md §4 C06"
 TECHNIQUE = ("Coq proof about a LinkSystem model with adversarial storage (arbitrary reader contents, chunking, read/open "
              "errors, failing writers/committers), parametric in the hash functions and the codec registry, + exhaustive "
